@@ -113,6 +113,51 @@ CHECKS.update({
     ),
 })
 
+CHECKS.update({
+    "C03": dict(
+        engine="PySym",
+        technique="bounded symbolic execution (PySym/z3) of compute_overall_components, find_components and ComponentFinder on every read x variant incidence matrix with symbolic strictly increasing positions; oracle = reflexive-transitive closure of 'share a read', representative = minimum position, master-block merge; composition to the PS/HP values written by the real PhasedVcfWriter (pysam model, replay on real pysam)",
+        text="Every incidence matrix for 4 positions x 3 reads, 5 x 2, trios 3 x 3 and 4 x 2, homozygous subsets, het/hom super reads in distrust mode.",
+        note="Trusted: core model read iteration (replayed on the rebuilt extension), pysam model. Read selection is claimed by C07.",
+        design_ref="DESIGN.md §4 C03, §9",
+    ),
+    "C04": dict(
+        engine="PySym",
+        technique="bounded symbolic execution (PySym/z3) of PhasedVcfWriter (write, _remove_existing_phasing, _set_PS/_set_HP, header repair, VcfAugmenter streaming) against an executable pysam model with solver-chosen phasing results; record-by-record diff oracle; every path replayed with real pysam on materialised VCF files and the compiled core",
+        text="<= 3 records, 2 samples, 2 chromosomes, both tags, only_snvs, mav, pre-existing PS/HP phasing, duplicate positions, multi-ALT and no-ALT records, missing contig lines.",
+        note="Trusted: pysam model (every encoded fact probed against pysam 0.24.1 and validated per path by the replay). One known finding (HP = None written as NUL bytes). Outside: htslib BCF/bgzip serialisation, HS sets.",
+        design_ref="DESIGN.md §4 C04, §9",
+    ),
+    "C09": dict(
+        engine="PySym",
+        technique="bounded symbolic execution (PySym/z3) of both encoders (_set_PS/_set_HP) and both decoders (_extract_GT_PS_phase/_extract_HP_phase, VcfReader, VariantTable.phases_of) through the pysam model incl. htslib's write/read normalisation; re-phasing hygiene for all four old x new tag pairs; phased_blocks_as_reads on symbolic tables; replay on real pysam files",
+        text="Bounded as C04; positions up to 2^31-2, HP ids from a small concrete domain (they pass through str/int). The clause 'a phased VCF as only input reproduces every phase set' rests on the DP (C01/C02 lemma) and is covered only up to the pseudo-read construction.",
+        note="Five genuine defects around the HP tag are recorded as known findings (see DESIGN 9.5).",
+        design_ref="DESIGN.md §4 C09, §9",
+    ),
+    "C10": dict(
+        engine="PySym",
+        technique="bounded symbolic execution (PySym/z3) of haplotag.py: prepare_haplotag_information, attempt_add_phase_information, ignore_read, linked-read pooling and run_haplotag's main loop under file stand-ins, with symbolic allele qualities; independent score oracle, tie rejection, haplotype-swap symmetry, conservation/order of records; replay on the real module with real pysam.AlignedSegment and the compiled core",
+        text="<= 3 (4) variants in <= 2 phase sets, ploidy 2-3, <= 2 linked reads, <= 4 records + unplaced tail, 4 region configurations, --tag-supplementary.",
+        note="Trusted: haplotag_model stand-ins. Two known findings (duplicate output under overlapping --regions, stale tags on the unmapped tail). Outside: BAM/CRAM file I/O, --output-threads.",
+        design_ref="DESIGN.md §4 C10, §9",
+    ),
+    "C13": dict(
+        engine="PySym",
+        technique="bounded symbolic execution (PySym/z3) of run_unphase/unphase_header against the pysam model, applied twice (idempotence), and of unphase(phase(x)) vs unphase(x) using the real writer; every path replayed through the real CLI function on a materialised VCF",
+        text="<= 3 records x <= 2 samples, ploidy 0 (no GT) to 4 per call, alleles <= 2, every missing pattern, phased bit, HP/PS/PQ present or not.",
+        note="Trusted: pysam model. The three crashes found were repaired in /repo (23ba0a4).",
+        design_ref="DESIGN.md §4 C13, §9",
+    ),
+    "C17": dict(
+        engine="PySym",
+        technique="bounded symbolic execution (PySym/z3) of the chain haplotag (tags) -> haplotagphase (compute_votes, best_candidate, consensus, run_haplotagphase bookkeeping); replay through the real run_haplotagphase with real VcfReader/PhasedVcfWriter/pysam on files written from the witness",
+        text="<= 3 (4) variants in <= 2 phase sets, <= 2 (3) error-free reads, partially unphased second input.",
+        note="Trusted: PhasedInputReader stand-in. One known finding (already phased variants without votes are un-phased).",
+        design_ref="DESIGN.md §4 C17, §9",
+    ),
+})
+
 NOT_APPLICABLE = {}
 
 
